@@ -14,7 +14,12 @@ compared with pointers renamed by allocation order.
 
 Streams
   A  random well-formed programs over every non-primitive type x ownership role x exit path
-  B  construct probes: one suspicious construct x type x context per program (canonical keys `construct=...`)
+  B  construct probes: one suspicious construct x type x context per program (canonical keys `construct=...`);
+     `construct=derived-from-temporary family=element|field role=...`: a non-primitive element of a TEMPORARY list
+     (function result, list literal, concatenation, slice, cast) / field of a temporary Kombination in every role whose
+     scope ends before the consumer runs (both arms of `falls`, und/oder operands via comparison, loop conditions and
+     bounds, argument, return value, stores, for-each source) — always also under ASan, because a reference that
+     outlives its owner leaves the ledger balanced
   M  Text-subset skeleton programs shared with the Coq model (ledger-shape correspondence)
   corpus/C05/*.json  minimised past failures, run first
 """
@@ -1406,6 +1411,13 @@ def py_balanced(ev):
     return not live
 
 
+def san_summary(err):
+    """the sanitizer's own one-line diagnosis and the first frames, instead of the shadow-memory dump at the end"""
+    e = err.decode("utf-8", "replace")
+    m = re.search(r"ERROR: (Address|Leak)Sanitizer[^\n]*(\n[^\n]*){0,7}", e)
+    return re.sub(r"\s+", " ", m.group(0))[:600] if m else e[-400:]
+
+
 def classify(rc, err):
     e = err.decode("utf-8", "replace")
     if rc == -9:
@@ -1500,18 +1512,40 @@ def shrink_source(b, sc, src, opt, argv, asan, budget=40, head=None):
         return cl != "ok" or not py_balanced(parse_ledger(base + ".led"))
     lines = src.split("\n")
     nhead = (head if head is not None else HEAD).count("\n")
-    progress = True
-    while progress and state["n"] < budget:
-        progress = False
+
+    def units_of(lines, top_only):
         units = []
         for i in range(nhead, len(lines)):
             if not lines[i].strip():
                 continue
             ind = len(lines[i]) - len(lines[i].lstrip("\t"))
+            if top_only and ind > 0:
+                continue
             k = i + 1
             while k < len(lines) and lines[k].strip() and (len(lines[k]) - len(lines[k].lstrip("\t"))) > ind:
                 k += 1
             units.append((i, k))
+        return units
+    # 1. runs of top-level statements, halving the run length (most of a probe program is irrelevant to one failure)
+    chunk = len(units_of(lines, True)) // 2
+    while chunk >= 2 and state["n"] < budget:
+        i = 0
+        while state["n"] < budget:
+            units = units_of(lines, True)
+            if i >= len(units):
+                break
+            lo, hi = units[i][0], units[min(i + chunk, len(units)) - 1][1]
+            cand = lines[:lo] + lines[hi:]
+            if bad("\n".join(cand)):
+                lines = cand
+            else:
+                i += chunk
+        chunk //= 2
+    # 2. single statements at every nesting depth
+    progress = True
+    while progress and state["n"] < budget:
+        progress = False
+        units = units_of(lines, False)
         for (i, k) in sorted(units, key=lambda u: u[0] - u[1]):
             if state["n"] >= budget:
                 break
@@ -1660,7 +1694,7 @@ def main():
             elif cl == "laufzeitfehler" and j.stream == "A":
                 stats["laufzeitfehler"] += 1
             elif cl != "ok":
-                bad = "%s (exit %d): %s" % (cl, rc, err[-400:].decode("utf-8", "replace"))
+                bad = "%s (exit %d): %s" % (cl, rc, san_summary(err) if cl == "sanitizer" else err[-400:].decode("utf-8", "replace"))
             elif j.end is not None and not out.decode("utf-8", "replace").endswith(j.end):
                 bad = "terminated without reaching the end of the program (stdout %r)" % out[-60:]
             elif v[0] != "B":
@@ -1734,10 +1768,19 @@ def main():
         "C05_actions_balanced_on_every_exit (soundness of the static ownership discipline for the code generator's actions on fallthrough, break, "
         "continue and return, all oracles/fuel), C05_runtime_fns_balanced + C05_concat_callers_balanced (free, deep copy, Text and list concatenations, "
         "including scalar+scalar of non-primitives and NUL-first Text operands, transfer ownership as documented), C05_former_witnesses_balanced, "
-        "C05_program_balanced_bounded (FULL with the bound in the statement: the 19866 enumerated skeleton programs of Lower/CompileBounded.v — every "
-        "construct, every loop form, every exit from inner scopes, in main and in an inlined function — compile to accepted, hence balanced, code). "
+        "C05_program_balanced_bounded (FULL with the bound in the statement: the 36064 enumerated skeleton programs of Lower/CompileBounded.v — every "
+        "construct incl. the element of a temporary list (function result, list literal) alone, as either arm of `falls` and as und/oder/loop-condition "
+        "operand, every role incl. argument and return value, every loop form, every exit from inner scopes, in main and in an inlined function — "
+        "compile to accepted, hence balanced, code). "
+        "C05_derived_reference_needs_owner (FULL): the discipline rejects every action that reads a place (deep copy for declaration/assignment/"
+        "argument, list-literal component, right concatenation operand, element assignment) whose owner slot is not owned any more; "
+        "C05_element_of_temporary_in_falls (FULL, concrete): the skeleton form EElem (BIN_INDEX: element of a temporary list is deep-copied into its own "
+        "temporary before the list's scope ends) compiles to accepted code inside `falls` arms and loop conditions, while the emission that hands a plain "
+        "reference into the temporary list out of the arm (copy after the arm released the list) is rejected. "
+        "NOT modelled: reads that copy nothing (Länge, gleich on a derived reference) emit no action, so a read-only use after release is outside "
+        "the discipline and is tied to the compiler through ASan only (construct=derived-from-temporary probes, sanitizer sample of streams A and M). "
         "C05_compile_ok + C05_program_balanced: FULL for the decidable fragment fprogram of Lower/CompileOk.v (expressions literal/variable/element/"
-        "unused temporaries/slice/Text concatenation/und-oder; statements declaration, assignment to variables and elements, expression statement, "
+        "unused temporaries/slice/element of a temporary or a variable/Text concatenation/und-oder; statements declaration, assignment to variables and elements, expression statement, "
         "block, Wenn, Solange and Mache-Solange with break/continue from inner scopes): compile emits accepted code, every normally terminating run "
         "is balanced. "
         "PARTIAL: C05_program_balanced_partial covers all skeleton programs whose compiled actions pass the extracted discipline (every generated stream-M "
